@@ -197,7 +197,12 @@ def main():
             continue
         for h in hs:
             jobs.append((mod, h, ctext, info))
-    jobs.sort(key=lambda j: -j[1].timeout if j[1].method.startswith('LC') else 0)
+    # longest first (expected solver time from the last full run, vx/costs.json; a scheduling hint only)
+    try:
+        _costs = json.load(open(os.path.join(VERIF, 'vx', 'costs.json')))
+    except Exception:
+        _costs = {}
+    jobs.sort(key=lambda j: -_costs.get('%s/%s' % (j[0].NAME, j[1].name), 1.0))
     results = []
     with ThreadPoolExecutor(a.j) as ex:
         futs = [(j, ex.submit(units.run_harness, *j)) for j in jobs]
